@@ -19,8 +19,10 @@ ALLOW = os.path.join(VERIF, 'trusted_allow.json')
 PROPMAP = os.path.join(VERIF, 'propmap.json')
 
 VERIF_MSGS = [
+    ('index in bounds for this access', 'bounds'),
     ('postcondition not satisfied', 'postcondition'),
     ('precondition not satisfied', 'precondition'),
+    ('precondition not met', 'precondition'),
     ('assertion failed', 'assert'),
     ('possible arithmetic underflow/overflow', 'overflow'),
     ('possible division by zero', 'div-by-zero'),
